@@ -163,6 +163,14 @@ func (c *TermCtx) BoundVar(hint, sort string) *Term {
 	return t
 }
 
+// BoundVarNamed returns the bound variable with exactly this name: the same quantifier body evaluated
+// twice over the same state then yields the identical term.
+func (c *TermCtx) BoundVarNamed(name, sort string) *Term {
+	t := c.intern(&Term{kind: kBound, name: sanitize(name) + "?", sort: sort})
+	t.bound = true
+	return t
+}
+
 // Name introduces a define-fun alias for a closed, non-trivial term.
 func (c *TermCtx) Name(t *Term, hint string) *Term {
 	if t.bound || t.size <= 6 || t.kind != kApp && t.kind != kQuant {
